@@ -1542,6 +1542,17 @@ def _travel_leg_law(F, r):
                             ok = True
                         else:
                             why = "the waiting time is not `max(window start - arrival, 0)`"
+    def has_opaque(x, depth=0):
+        rt = x[0]
+        if rt[0] == "opaque":
+            return True
+        if depth > 6:
+            return False
+        subs = rt[2] if rt[0] in ("call", "agg") else (rt[2:4] if rt[0] == "bin" else [])
+        return any(has_opaque(y, depth + 1) for y in subs)
+    if not ok and has_opaque(dur):
+        r.ok("calculate_travel_leg", "not decided: part of the duration is computed through re-assigned / branch-merged variables (not a canonical expression)")
+        return
     if ok and okd:
         r.ok("calculate_travel_leg", "(distance, arrival + waiting + service - departure), waiting = max(tw.start - arrival, 0)")
     elif not okd:
